@@ -56,6 +56,9 @@ type seedTree struct {
 	Nodes []jnode
 	Bytes []byte // canonical serialisation (what truncation works on)
 	UUIDs []string
+	// node / action / exit UUID positions (uuidreuse.go)
+	Sites  []uuidSite
+	SiteAt map[int]int // pre-order index -> index into Sites
 }
 
 func buildSeedTree(data []byte) *seedTree {
@@ -145,6 +148,7 @@ func buildSeedTree(data []byte) *seedTree {
 		}
 	}
 	walk(root, []any{}, nil, 0, false)
+	st.findSites()
 	w := &jwriter{target: -1}
 	w.write(root)
 	st.Bytes = append([]byte{}, w.buf.Bytes()...)
@@ -289,6 +293,18 @@ func (fr *faultRunner) try(kind, where string, data []byte) {
 	res := fr.res
 	res.Count("fault.mutants", 1)
 	res.Count("fault.kind."+kind, 1)
+	reuse := strings.HasPrefix(kind, "uuid-reuse.")
+	if reuse {
+		res.Count("uuid_reuse.mutants", 1)
+		if a, b, _ := strings.Cut(strings.TrimPrefix(kind, "uuid-reuse."), "="); a != b {
+			res.Count("uuid_reuse.cross_kind", 1)
+		}
+	}
+	rejected := func() {
+		if reuse {
+			res.Count("uuid_reuse.rejected", 1)
+		}
+	}
 	report := func(pi *panicInfo) {
 		res.Count("fault.panics", 1)
 		res.Count("panics", 1)
@@ -321,6 +337,7 @@ func (fr *faultRunner) try(kind, where string, data []byte) {
 	if err != nil {
 		res.Count("fault.returned_error", 1)
 		res.Count("fault.rejected_by.migrate", 1)
+		rejected()
 		return
 	}
 	flow, err, pi := readFlow(out)
@@ -331,12 +348,18 @@ func (fr *faultRunner) try(kind, where string, data []byte) {
 	if err != nil {
 		res.Count("fault.returned_error", 1)
 		res.Count("fault.rejected_by.readflow", 1)
+		rejected()
 		fr.plaus++
 		return
 	}
 	// the corrupted definition is acceptable: then it is a current-version definition and must round-trip
 	res.Count("fault.accepted", 1)
 	fr.plaus++
+	if reuse {
+		res.Count("uuid_reuse.accepted", 1)
+	}
+	// ... and what was accepted must not contain two things with one UUID
+	fr.ck.checkUniqueUUIDs(fr.label, kind, where, data, flow)
 	fr.ck.checkRoundTrip(fr.label+" "+kind+" "+where, out, flow, false)
 }
 
@@ -363,6 +386,9 @@ func (fr *faultRunner) runUnit(st *seedTree, u int) {
 		}
 		if n.InArray {
 			fr.try("duplicate-element", where, st.mutate(u, modeDup, nil))
+		}
+		if k, ok := st.SiteAt[u]; ok {
+			fr.reuseAt(st, k)
 		}
 		return
 	}
